@@ -36,7 +36,9 @@ def worker_env(extra: dict | None = None) -> dict:
     if os.environ.get("XV_PYPATH"):  # mutant self-tests: import xdsl from a scratch worktree instead of /repo
         pp = [os.environ["XV_PYPATH"]] + pp
     env["PYTHONPATH"] = os.pathsep.join(pp + [p for p in env.get("PYTHONPATH", "").split(os.pathsep) if p])
-    env["PYTHONDONTWRITEBYTECODE"] = "1"
+    # byte-code cache outside /repo and outside git (workers otherwise recompile all of xdsl: ~3 s each)
+    env.pop("PYTHONDONTWRITEBYTECODE", None)
+    env["PYTHONPYCACHEPREFIX"] = os.path.join(ROOT, ".work", "pycache")
     if extra:
         env.update({k: str(v) for k, v in extra.items()})
     return env
